@@ -503,6 +503,8 @@ func (c *resultCodec) Decode(source io.Reader, version primitive.ProtocolVersion
 		var rowsCount int32
 		if rowsCount, err = primitive.ReadInt(source); err != nil {
 			return nil, fmt.Errorf("cannot read RESULT Rows data length: %w", err)
+		} else if rowsCount < 0 {
+			return nil, fmt.Errorf("cannot read RESULT Rows data: expected length >= 0, got: %d", rowsCount)
 		}
 		rows.Data = make(RowSet, rowsCount)
 		for i := 0; i < int(rowsCount); i++ {
